@@ -940,6 +940,12 @@ m("c12-genesis-duplicates-by-spelling", "C12", "x/ucdao/types/genesis.go",
 m("c12-initgenesis-skips-validation", "C12", "x/ucdao/keeper/genesis.go",
   "\tif err := genState.Validate(); err != nil {\n\t\tpanic(fmt.Errorf(\"invalid ucdao genesis: %w\", err))\n\t}\n", "",
   "validates-before-writing", "InitGenesis no longer validates")
+m("c16-claim-rewards-unbounded", "C16", "precompiles/distribution/tx.go",
+  "\tif maxVals := p.stakingKeeper.MaxValidators(ctx); maxRetrieve > maxVals {", "\tif maxVals := p.stakingKeeper.MaxValidators(ctx); maxVals == 0 {",
+  "maxRetrieve-1-bounded", "the caller-chosen count is no longer compared with a bound")
+m("c16-panicking-decoder", "C16", "precompiles/common/types.go",
+  "\taccAddr, err := sdk.AccAddressFromBech32(addr)\n\tif err != nil {\n\t\treturn res, err\n\t}\n\treturn common.BytesToAddress(accAddr), nil\n", "\treturn common.BytesToAddress(sdk.MustAccAddressFromBech32(addr)), nil\n",
+  "panicking-decoder", "positive control of the expected-zero rule: a Must…Bech32 decoder in precompile code")
 for prop in ("C16", "C07"):
     m("c%s-gas-meter-without-precharge" % prop[1:], prop, "precompiles/common/precompile.go",
       "sdk.NewGasMeter(initialGas + contract.Gas)", "sdk.NewGasMeter(contract.Gas)",
